@@ -1,8 +1,8 @@
 (* multi_mode_dot with the SAME mode named twice (matrix operands).  Core backend: the successive mode products in listing order
-   (the stable sort keeps the listing order of equal modes), i.e. the textbook T x_m A x_m B.  Einsum backend AS IT IS: every
-   operand is contracted with the tensor's ORIGINAL label of the mode (tensor_modes[mode]) and the output label of the position is
-   overwritten, so the first operand's new label is summed out: a different tensor, or a size error when the successive product is
-   well-formed with a changed mode size.  Refuted by computed witnesses. *)
+   (the stable sort keeps the listing order of equal modes), i.e. the textbook T x_m A x_m B.  Einsum backend: the same since /repo
+   a6246d0 (TenalgProofsAnyModes.v proves core = einsum for arbitrary mode lists); BEFORE, every operand was contracted with the
+   tensor's ORIGINAL label of the mode and the output label of the position overwritten, so the first operand's new label was
+   summed out: a different tensor, or a rejection of a well-formed successive product - kept as a labelled regression Example. *)
 From Coq Require Import List Arith ZArith Lia Bool.
 From TLV Require Import Base.Shape Base.PyList Base.Tensor Base.BigSum Model.Base Model.Tenalg.
 Import ListNotations.
@@ -24,37 +24,23 @@ Proof.
 Qed.
 End P.
 
-(* T, A, B all 2 x 2, both operands on mode 1: the successive product (core) is [[-1,10],[-1,22]], the einsum backend returns
-   [[-5,8],[-9,18]]; with A 3 x 2 and B 1 x 3 (a well-formed successive product) the einsum backend raises *)
-Theorem multi_mode_dot_einsum_repeated_modes_refuted :
-  exists (T A B A3 B3 Rc Re R3 : tensor Z),
-    multi_mode_dot ZR T [A; B] (Some [1; 1]) None false = Ok Rc /\
-    rbind (mode_dot ZR T A 1 false) (fun R => mode_dot ZR R B 1 false) = Ok Rc /\
-    multi_mode_dot_e ZR T [A; B] (Some [1; 1]) None false = Ok Re /\ Rc <> Re /\
-    multi_mode_dot ZR T [A3; B3] (Some [1; 1]) None false = Ok R3 /\
-    multi_mode_dot_e ZR T [A3; B3] (Some [1; 1]) None false = Err.
-Proof.
-  exists (mk [2; 2] [1; 2; 3; 4]%Z), (mk [2; 2] [1; 1; 0; 2]%Z), (mk [2; 2] [1; -1; 2; 1]%Z),
-         (mk [3; 2] [1; 0; 0; 1; 1; 1]%Z), (mk [1; 3] [1; 2; 3]%Z),
-         (mk [2; 2] [-1; 10; -1; 22]%Z), (mk [2; 2] [-5; 8; -9; 18]%Z), (mk [2; 1] [14; 32]%Z).
-  repeat split; try (vm_compute; reflexivity). discriminate.
-Qed.
+(* regression (defect repaired by /repo a6246d0): T, A, B all 2 x 2, both operands on mode 1: the successive product is
+   [[-1,10],[-1,22]], the old einsum rule gave [[-5,8],[-9,18]]; with A 3 x 2 and B 1 x 3 (a well-formed successive product,
+   [[14],[32]]) the old rule rejected *)
+Example multi_mode_dot_einsum_repeated_modes_before_a6246d0 :
+  let T : tensor Z := mk [2; 2] [1; 2; 3; 4]%Z in
+  let A : tensor Z := mk [2; 2] [1; 1; 0; 2]%Z in let B : tensor Z := mk [2; 2] [1; -1; 2; 1]%Z in
+  let A3 : tensor Z := mk [3; 2] [1; 0; 0; 1; 1; 1]%Z in let B3 : tensor Z := mk [1; 3] [1; 2; 3]%Z in
+  multi_mode_dot ZR T [A; B] (Some [1; 1]) None false = Ok (mk [2; 2] [-1; 10; -1; 22]%Z) /\
+  multi_mode_dot_e_before_a6246d0 ZR T [A; B] (Some [1; 1]) None false = Ok (mk [2; 2] [-5; 8; -9; 18]%Z) /\
+  multi_mode_dot_e ZR T [A; B] (Some [1; 1]) None false = Ok (mk [2; 2] [-1; 10; -1; 22]%Z) /\
+  multi_mode_dot ZR T [A3; B3] (Some [1; 1]) None false = Ok (mk [2; 1] [14; 32]%Z) /\
+  multi_mode_dot_e_before_a6246d0 ZR T [A3; B3] (Some [1; 1]) None false = Err /\
+  multi_mode_dot_e ZR T [A3; B3] (Some [1; 1]) None false = Ok (mk [2; 1] [14; 32]%Z).
+Proof. cbv zeta. repeat split; vm_compute; reflexivity. Qed.
 
 (* a size-1 mismatch (malformed request): since /repo 8b25fc6 the einsum multi_mode_dot checks every operand against its mode and
    rejects, like the core backend and mode_dot of both backends; before, np.einsum broadcast the size-1 axis (einsum_np) *)
-Section R.
-Context {F : Type} (Op : rops F).
-Theorem multi_mode_dot_e_rejects_misfit (T : tensor F) (Ms : list (tensor F)) (modes : option (list nat)) (skip : option nat) (tr : bool) :
-  (exists x, In x (sort_by_mode (zip3 Ms modes)) /\ is_skip skip (snd x) = false /\ fit_one (shape T) tr (fst (fst x)) (t_mode x) = false) ->
-  multi_mode_dot_e Op T Ms modes skip tr = Err.
-Proof.
-  intros [x [Hx [Hs Hf]]]. unfold multi_mode_dot_e. cbv zeta.
-  assert (E : mmd_e_fits (shape T) tr skip (sort_by_mode (zip3 Ms modes)) = false).
-  { unfold mmd_e_fits. apply Bool.not_true_is_false. intros H. rewrite forallb_forall in H. specialize (H x Hx). now rewrite Hs, Hf in H. }
-  now rewrite E.
-Qed.
-End R.
-
 Example multi_mode_dot_einsum_size1_before_8b25fc6 :
   let T : tensor Z := mk [2; 2] [1; 2; 3; 4]%Z in let M : tensor Z := mk [2; 1] [1; 2]%Z in
   multi_mode_dot ZR T [M] (Some [1]) None false = Err /\ mode_dot_e ZR T M 1 false = Err /\
